@@ -205,12 +205,18 @@ impl DualAvg {
 /// Heuristic for the initial step size. `python_variant`: the variant of the Python
 /// implementation the module cites (halve first while the first step is not finite, start the
 /// doubling from eps/2 but test with the un-halved step); otherwise Algorithm 4 of the paper.
-pub fn find_reasonable_epsilon<D: Density>(d: &D, x: &[f64], p: &[f64], python_variant: bool) -> (f64, f64) {
+/// Returns (eps0, smallest decision margin, whether a non-finite energy change was met).
+pub fn find_reasonable_epsilon<D: Density>(d: &D, x: &[f64], p: &[f64], python_variant: bool) -> (f64, f64, bool) {
     let s0 = state0(d, x, p);
     let mut eps = 1.0;
+    let nonfinite = std::cell::Cell::new(false);
     let lap = |e: f64| -> f64 {
         let s = leap(d, &s0, e);
-        s.joint - s0.joint
+        let v = s.joint - s0.joint;
+        if !v.is_finite() {
+            nonfinite.set(true);
+        }
+        v
     };
     let mut min_margin = f64::INFINITY;
     if python_variant {
@@ -254,5 +260,5 @@ pub fn find_reasonable_epsilon<D: Density>(d: &D, x: &[f64], p: &[f64], python_v
             }
         }
     }
-    (eps, min_margin)
+    (eps, min_margin, nonfinite.get())
 }
